@@ -846,6 +846,13 @@ def rewrite_auto_tbl(ftoks, lo, table, log, fn):
                             out[k] = _mk('id', ct + '::iterator')
                             log.fire('N6', fn)
                             break
+                else:
+                    # `auto [const] [&] v = E;` where E itself is a known container expression: v has E's type
+                    for rx, ct in table:
+                        if _re.fullmatch(rx, rhs.replace(' ', '')):
+                            out[k] = _mk('id', ct)
+                            log.fire('N6', fn)
+                            break
         k += 1
     return out
 
